@@ -57,6 +57,7 @@ class UnitResult:
         self.wall = 0.0
         self.probe_ok = None
         self.probe_missing = []
+        self.uncompilable = {}  # extracted fn -> compile error messages
         self.text_path = None
 
 
@@ -177,6 +178,13 @@ def _collect(r, res, meta, tl):
     if others:
         msgs = "; ".join(d["message"][:200] + "@" + ",".join(str(x[0]) for x in vunit.diag_lines(d)[:2]) for d in others[:5])
         r.undecided.append("unit does not compile / construct outside verifier subset: " + msgs)
+        # remember which extracted functions the compile errors sit in: the property driver may still find a
+        # concrete failing input for them on the real code (then: VIOLATION with that witness)
+        for d in others:
+            for (ls, le, prim, label) in vunit.diag_lines(d):
+                fn, extracted = fn_for_line(meta, tl, ls)
+                if fn and extracted:
+                    r.uncompilable.setdefault(fn, []).append(d["message"][:300])
     if not res.get("json") and not others:
         r.undecided.append("verus produced no result: " + res.get("raw_err", "")[-500:])
     for d in rlim:
